@@ -112,13 +112,20 @@ def ind_frame() -> bytes:
     return encode_ldata(0x29, priority=3, repeat_on_error=False, system_broadcast=False, ack=False, confirm_error=False, hop_count=6, dst_is_group=True, src=0x1107, dst=0x0902, tpci_octet=0, apdu=bytes.fromhex("008001"))
 
 
-def make_send(n_sends: int, concurrent: bool):
+def make_send(n_sends: int, concurrent: bool, data_secure: bool = False):
+    """`data_secure`: Data Secure is initialised (with a key for another group address, so these telegrams stay plain) - the send
+    path then runs through DataSecure.outgoing_cemi first."""
+
     def scenario(ch: Chooser) -> list[tuple[str, str]]:
         viols: list[tuple[str, str]] = []
         with World() as w:
             loop = w.loop
             xknx = XKNX()
             xknx.current_address = IndividualAddress(OWN)
+            if data_secure:
+                from xknx.secure.data_secure import DataSecure
+
+                xknx.cemi_handler.data_secure = DataSecure(group_key_table={GroupAddress(0x0A01): bytes(range(16))}, individual_address_table={}, last_sequence_number_sending=5)
             cons: list[float] = []          # delivery times of L_Data.con frames
             con_seq: list[int] = []
             sends: dict[int, dict[str, Any]] = {}
@@ -233,24 +240,83 @@ def make_send(n_sends: int, concurrent: bool):
 SCENARIOS = {"send": make_send}
 
 
+def w_tunnel_address() -> Part:
+    """'Addressed to this interface' = the individual address the tunnelling server ASSIGNED in its ConnectResponse, also when
+    another one was requested: point-to-point frames to the assigned address reach management, frames to the requested one do not."""
+    from xknx.io.tunnel import TCPTunnel
+    from xknx.knxip import ConnectRequest, TunnellingRequest
+
+    from ..sim.gateway import GW_ADDR, Gateway
+    from ..vloop import texc
+
+    part = Part()
+    calls: list[Any] = []
+    orig = Management.process
+    Management.process = lambda self, telegram: calls.append(telegram)  # type: ignore[method-assign]
+    try:
+        for requested, assigned in (("1.1.100", "1.1.240"), (None, "1.1.240"), ("1.1.100", "1.1.100")):
+            with World() as w:
+                gw = Gateway(w.loop)
+
+                def handler(body: Any, _assigned: str = assigned) -> None:
+                    if isinstance(body, ConnectRequest):
+                        gw.send(gw.connect_response(7, tcp=True, ia=_assigned))
+
+                gw.handler = handler
+                xknx = XKNX()
+                try:
+                    tunnel = TCPTunnel(xknx, gateway_ip=GW_ADDR[0], gateway_port=GW_ADDR[1], individual_address=IndividualAddress(requested) if requested else None,
+                                       cemi_received_callback=xknx.cemi_handler.handle_raw_cemi, auto_reconnect=False)
+                    t = w.spawn(tunnel.connect(), name="harness-connect")
+                    w.loop.settle()
+                    case = {"tunnel-address": [requested, assigned]}
+                    part.evaluations += 1
+                    part.nontrivial += 1
+                    if not t.done() or texc(t) is not None:
+                        part.viol("harness:tunnel-connect", repr(t), case)
+                        continue
+                    if xknx.current_address != IndividualAddress(assigned):
+                        part.viol("own-address-is-not-the-assigned-one", f"requested {requested}, the server assigned {assigned}: xknx.current_address = {xknx.current_address}", case)
+                    for dst, want in ((assigned, 1), (requested or "1.1.100", 1 if (requested or "1.1.100") == assigned else 0), ("1.1.77", 0)):
+                        calls.clear()
+                        raw = encode_ldata(0x29, priority=0, repeat_on_error=False, system_broadcast=False, ack=False, confirm_error=False, hop_count=6, dst_is_group=False,
+                                           src=0x1101, dst=IndividualAddress(dst).raw, tpci_octet=0x80, apdu=None)
+                        gw.send(TunnellingRequest(7, 0, raw))
+                        w.loop.settle()
+                        part.evaluations += 1
+                        if len(calls) != want:
+                            part.viol(f"wrong-consumer:management:{'extra' if len(calls) > want else 'missing'}:tunnel-assigned-address",
+                                      f"tunnel requested {requested}, server assigned {assigned}: a T_Connect to {dst} reached management {len(calls)} times, reference {want}", case)
+                finally:
+                    xknx.started.clear()
+    finally:
+        Management.process = orig  # type: ignore[method-assign]
+    return part
+
+
 def run(ctx: Ctx) -> None:
     bound = 3 if ctx.thorough else 2
     ctx.rule = (
         "(a) routing matrix, complete: every cEMI message code x destination {group, broadcast, own IA, foreign IA, 0.0.0} x every admissible TPCI kind x 2 control variants x own address "
         "{1.1.5, 0.0.0} through the real CEMIHandler.handle_raw_cemi, consumers counted (telegram queue / Management.process) against a reference table; "
         f"(b) real CEMIHandler.send_telegram x 1-3 sends (sequential or 2 concurrent) over a fake interface: hand-over {HAND}, confirmation {CON}, between sends {STRAY[1:]}; every schedule "
-        f"with <= {bound} deviations; a send returns normally only if an L_Data.con arrived after its send_cemi call, else ConfirmationError exactly {REQUEST_TO_CONFIRMATION_TIMEOUT}s after hand-over"
+        f"with <= {bound} deviations; a send returns normally only if an L_Data.con arrived after its send_cemi call, else ConfirmationError exactly {REQUEST_TO_CONFIRMATION_TIMEOUT}s after hand-over (also with Data Secure initialised); "
+        "(c) a real TCPTunnel whose server assigns another individual address than the requested one: frames to the assigned address reach management, frames to the requested one do not"
     )
     ctx.bounds = {"deviation_bound": bound}
     ctx.assumptions = ["'handed to the interface' = the moment send_cemi is called (DESIGN.md readings); T_Data_Tag_Group is only required to be delivered at most once"]
     ctx.pmap(w_matrix, [(OWN,), (0,)])
-    for args in [(1, False), (2, False), (3, False), (2, True)]:
+    for args in [(1, False), (2, False), (3, False), (2, True), (2, False, True), (3, False, True)]:
         explore(ctx, __name__, "send", args, bound=bound)
+    ctx.pmap(w_tunnel_address, [()])
     finalize_states(ctx)
 
 
 def replay(case: Any) -> list[tuple[str, str]]:
     if "scenario" in case:
         return replay_schedule(__name__, case)
+    if "tunnel-address" in case:
+        p = w_tunnel_address()
+        return [(s, v[1]) for s, v in p.viols.items()]
     p = w_matrix(case["own"])
     return [(s, v[1]) for s, v in p.viols.items()]
